@@ -59,22 +59,49 @@ func (val *RawXMLValue) UnmarshalXML(d *xml.Decoder, start xml.StartElement) err
 
 // MarshalXML implements xml.Marshaler.
 func (val *RawXMLValue) MarshalXML(e *xml.Encoder, start xml.StartElement) error {
+	return val.marshalXML(e, false)
+}
+
+// marshalXML encodes the value. inNamespace indicates whether the parent
+// element, if any, has been written with a default namespace declaration.
+func (val *RawXMLValue) marshalXML(e *xml.Encoder, inNamespace bool) error {
 	if val.out != nil {
 		return e.Encode(val.out)
 	}
 
 	switch tok := val.tok.(type) {
 	case xml.StartElement:
-		if err := e.EncodeToken(tok); err != nil {
+		// The encoder declares the namespaces of the element and of its
+		// attributes by itself: writing the captured declarations again
+		// results in duplicate or conflicting attributes. However the
+		// encoder never resets the default namespace for an element which
+		// isn't in any namespace.
+		start := xml.StartElement{Name: tok.Name}
+		undeclare := inNamespace && tok.Name.Space == ""
+		for _, attr := range tok.Attr {
+			if attr.Name.Space == "xmlns" {
+				continue
+			} else if attr.Name.Space == "" && attr.Name.Local == "xmlns" {
+				if attr.Value == "" && tok.Name.Space == "" {
+					undeclare = true
+				}
+				continue
+			}
+			start.Attr = append(start.Attr, attr)
+		}
+		if undeclare {
+			start.Attr = append(start.Attr, xml.Attr{Name: xml.Name{Local: "xmlns"}})
+		}
+
+		if err := e.EncodeToken(start); err != nil {
 			return err
 		}
 		for _, child := range val.children {
-			// TODO: find a sensible value for the start argument?
-			if err := child.MarshalXML(e, xml.StartElement{}); err != nil {
+			if err := child.marshalXML(e, tok.Name.Space != ""); err != nil {
 				return err
 			}
 		}
-		return e.EncodeToken(tok.End())
+		return e.EncodeToken(start.End())
 	case xml.EndElement:
 		panic("unexpected end element")
 	default:
